@@ -46,6 +46,24 @@ class MemFile:
             out.append(cur)
         return out
 
+    # the rest of the text-file protocol a reader / writer may legitimately use
+    def __iter__(self):
+        return iter(self.readlines())
+
+    def read(self):
+        return MemFile.store[self.path]
+
+    def readline(self):
+        if not hasattr(self, '_lines'):
+            self._lines = self.readlines()
+        return self._lines.pop(0) if self._lines else ''
+
+    def close(self):
+        pass
+
+    def flush(self):
+        pass
+
     def writelines(self, lines):
         for line in lines:
             MemFile.store[self.path] += line
